@@ -8,8 +8,9 @@ impl Timeouts {
     pub uninterp spec fn pdu_v(&self) -> LabeledTimeout;
     #[verifier::external_body]
     pub fn pdu(&self) -> (r: LabeledTimeout) ensures r == self.pdu_v() { unimplemented!() }
+    pub uninterp spec fn state_transition_v(&self) -> LabeledTimeout;
     #[verifier::external_body]
-    pub fn state_transition(&self) -> (r: LabeledTimeout) { unimplemented!() }
+    pub fn state_transition(&self) -> (r: LabeledTimeout) ensures r == self.state_transition_v() { unimplemented!() }
     /// the pause between two polls (src/timer_factory.rs)
     #[verifier::external_body]
     pub async fn loop_tick(&self) { unimplemented!() }
